@@ -1515,6 +1515,7 @@ def concatenate(
                         merge=merge,
                         mergebool=mergebool,
                         highlevel=False,
+                        behavior=behavior,
                     )
                 )
                 offsets.append(offsets[-1] + len(partitions[-1]))
